@@ -34,7 +34,7 @@ func TestC03(t *testing.T) {
 	r := kit.New(t, "C03")
 	defer r.Finish()
 	r.SetRule("inputs: (a) every string up to length L over the 20-symbol alphabet " + strings.Join(quoteAll(c03Alphabet), " ") +
-		"; (b) every block-string body up to length B over {space,(tab),LF,CR,a,\",\\} wrapped in triple quotes and followed by a sentinel name; " +
+		"; (b) every block-string body up to length B over {space,(tab),LF,CR,a,\",\\} wrapped in triple quotes and followed by a sentinel name, and up to length 5 over {space, LF, a, U+00A0, U+2028, U+0085, U+3000, U+FEFF} (Unicode spaces are content); " +
 		"(c) every quoted-string body up to length 6 over {\\,u,0,F,n,\",x,é}; (d) random valid-UTF-8 soups of lexical fragments; (e) two renderings of one token list with different ignored text. " +
 		"non-trivial = the grammar yields >= 2 tokens, or a string token whose value differs from its lexeme, or it fails after at least one token; distinct by input")
 	r.Assume("reference lexer ref.Lex is a faithful transcription of the October 2021 lexical grammar (self-tested against lexer/lexer_test.yml)")
@@ -71,6 +71,13 @@ func TestC03(t *testing.T) {
 	}
 	enumAll(r, "block", ba, bl, `"""`, `""" z`, func(s string) (string, bool) { return c03Eval(r, s) })
 	r.Exhaustive(sprintf("all block-string bodies of length <= %d over %d symbols, wrapped in triple quotes + sentinel", bl, len(ba)))
+
+	// (b2) block string bodies over characters that look like blank space but are content: only
+	// space and tab are WhiteSpace for BlockStringValue, only LF / CR end a line
+	ub := []string{" ", "\n", "a", "\u00a0", "\u2028", "\u0085", "\u3000", "\uFEFF"}
+	ubl := kit.Pick(5, 6)
+	enumAll(r, "block", ub, ubl, `"""`, `""" z`, func(s string) (string, bool) { return c03Eval(r, s) })
+	r.Exhaustive(sprintf("all block-string bodies of length <= %d over {space, LF, a, U+00A0, U+2028, U+0085, U+3000, U+FEFF}", ubl))
 
 	// (c) exhaustive quoted string bodies
 	enumAll(r, "string", c03StringAlphabet, 6, `"`, `" z`, func(s string) (string, bool) { return c03Eval(r, s) })
